@@ -27,6 +27,8 @@ type Expect struct {
 	RefuseStatuses []int `json:"refuse_statuses,omitempty"`
 	Why       string   `json:"why,omitempty"`
 	Policy    string   `json:"policy,omitempty"` // framework-policy shape: generated, not judged
+	// PolicyFor: the same, but only for the named engines (the others are judged)
+	PolicyFor map[string]string `json:"policy_for,omitempty"`
 }
 
 // ReqPlan is one simulated client request (a pure value: replayable).
@@ -40,6 +42,8 @@ type ReqPlan struct {
 	Body    string                  `json:"body,omitempty"`
 	CType   string                  `json:"ctype,omitempty"`
 	Chunks  []int                   `json:"chunks,omitempty"`
+	// UnknownLength: the client streams the body without declaring its length (chunked transfer coding)
+	UnknownLength bool `json:"unknown_length,omitempty"`
 	Auth    map[string]AuthDecision `json:"auth,omitempty"`
 	AuthDefault AuthDecision        `json:"auth_default"`
 	Ctl     CtlScript               `json:"ctl"`
@@ -509,9 +513,13 @@ func (pl *planner) buildForced(ri int, class string, modes map[string]string, ad
 	if plan.Expect.Outcome == "invoked" {
 		plan.Expect.Args = expectArgs
 	}
-	for _, t := range plan.Tags {
-		if t == "trailing-slash" {
-			plan.Expect.Policy = "trailing slash in the served path"
+	// A request that spells an annotated trailing-slash template exactly is served by every engine. Only
+	// when ANOTHER route of the same verb differs from this one by nothing but the trailing slash is the
+	// pair indistinguishable for fiber's default (non-strict) routing: framework policy for fiber alone.
+	for oi, o := range pl.routes {
+		if oi != ri && o.M.Verb == m.Verb && strings.TrimSuffix(o.Path, "/") == strings.TrimSuffix(rt.Path, "/") && o.Path != rt.Path {
+			plan.Expect.PolicyFor = map[string]string{"fiber": "non-strict routing cannot tell " + rt.Path + " from " + o.Path}
+			plan.Tags = append(plan.Tags, "slash-twin")
 		}
 	}
 	// default controller script: a value result the method's type can hold
